@@ -219,7 +219,6 @@ class Envelope(core_events.Consecution, typing.Generic[T]):
             cs = self.event_to_curve_shape(e)
             csx = ((abst - abst_tuple[e_idx]) / e.duration).beat_count * cs
             cs_at_abst = cs - csx
-            self.apply_curve_shape_on_event(e, csx)
         else:
             cs_at_abst = 0
         return cs_at_abst
@@ -468,6 +467,14 @@ class Envelope(core_events.Consecution, typing.Generic[T]):
         # given point in time.
         if abst not in abst_tuple:
             p = self._point_at(abst, abst_tuple, dur)
+            # The event that is active at 'abst' only keeps the share of
+            # its curve shape that belongs to the time before 'abst'.
+            if (
+                i := self._get_index_at_from_absolute_time_tuple(abst, abst_tuple, dur)
+            ) is not None:
+                self.apply_curve_shape_on_event(
+                    self[i], self.event_to_curve_shape(self[i]) - p[2]
+                )
             e = self._make_event(
                 find_dur(abst, abst_tuple), self.value_to_parameter(p[1]), p[2]
             )
@@ -519,6 +526,11 @@ class Envelope(core_events.Consecution, typing.Generic[T]):
         for t, ev in zip(abst_tuple[i0:i1], self[i0:i1]):
             plist.append((t, self._event_to_value(ev), self.event_to_curve_shape(ev)))
         if last_point is not None:
+            # The segment that leads to the ad-hoc end point only covers a
+            # part of its curve: remove the share that follows 'end'.
+            if plist:
+                t, v, cs = plist[-1]
+                plist[-1] = (t, v, cs - last_point[2])
             plist.append(last_point)
         return tuple(plist)
 
